@@ -261,6 +261,9 @@ func renderValue1(v ssa.Value, d int) string {
 		}
 		return renderValue(x.X, d+1) + "[" + renderValue(x.Index, d+1) + "]"
 	case *ssa.Extract:
+		if ta, ok := x.Tuple.(*ssa.TypeAssert); ok && x.Index == 0 && types.IsInterface(ta.AssertedType) {
+			return renderValue(ta.X, d)
+		}
 		if lk, ok := x.Tuple.(*ssa.Lookup); ok && x.Index == 1 {
 			if set, ok := constSetOfLookup(lk, true); ok {
 				return "in{" + set + "}(" + renderValue(lk.Index, d+1) + ")"
@@ -353,6 +356,11 @@ func renderValue1(v ssa.Value, d int) string {
 	case *ssa.Range:
 		return "range(" + renderValue(x.X, d+1) + ")"
 	case *ssa.TypeAssert:
+		// an assertion to another interface type yields the same dynamic value: a method called on
+		// it is the method called on the original
+		if types.IsInterface(x.AssertedType) {
+			return renderValue(x.X, d)
+		}
 		// asserting back the very type a value was boxed from is that value
 		if mi, ok := x.X.(*ssa.MakeInterface); ok && types.Identical(mi.X.Type(), x.AssertedType) {
 			return renderValue(mi.X, d)
@@ -835,7 +843,21 @@ var rangeEndRe = regexp.MustCompile(`^builtin\.len\((.*)\) <= (?:\(φ:int\+1:int
 // of the short-circuit / nested-if chain that leads to bb: a predecessor whose other successor is
 // the same "not skipped" target as bb's other successor contributes a conjunct (so `a && b`,
 // `b && a` and `if a { if b {…} }` are one decision). Conjuncts are sorted.
+// skipSites: where each rendered skip decision was made (block and the successor index taken).
+type skipSite struct {
+	b *ssa.BasicBlock
+	k int
+}
+
+var skipSites = map[string][]skipSite{}
+
 func renderSkipDecision(bb *ssa.BasicBlock, k int) string {
+	s := renderSkipDecision1(bb, k)
+	skipSites[s] = append(skipSites[s], skipSite{bb, k})
+	return s
+}
+
+func renderSkipDecision1(bb *ssa.BasicBlock, k int) string {
 	ifi := blockIf(bb)
 	parts := []string{renderCondV(ifi.Cond, k == 0)}
 	// a branch on the boolean phi of `a && b` / `a || b` (a `case a && b:` of a tagless switch, a
@@ -1200,7 +1222,7 @@ func c03Omissions(p *Prog, r *Report, rule string, fns []*ssa.Function) {
 			wantN[s]++
 		}
 		for s, n := range got {
-			if _, audited := wantN[s]; !audited && n > 0 {
+			if _, audited := wantN[s]; !audited && n > 0 && !subsumedDecision(s, wantN, got) {
 				r.Fail(rule, key+":new:"+short(s, 120), p.Pos(fn.Pos()), "a decision that makes the current record/element impossible to report is not among the audited omissions of this format: "+s+" (an added filter, de-duplication or early exit drops or merges packages)")
 			} else {
 				r.OK(rule, key+":"+short(s, 120), p.Pos(fn.Pos()), "audited omission")
